@@ -12,12 +12,12 @@ import (
 //
 //verif:props=C07,C01 replay=model bounds="all positive timeouts (int64 ns), all elapsed times, IPv4/IPv6 peers incl. same IP other port"
 func VerifHarness_C07_permission_timers() {
-	a, _, _ := vNewAlloc(nil)
-	log := &vLogger{}
+	a, _, _ := VNewAlloc(nil)
+	log := &VLogger{}
 	t1, t2 := time.Duration(vI64()), time.Duration(vI64())
 	vAssume(t1 > 0)
 	vAssume(t2 > 0)
-	p1, p2 := vUDPAddr(), vUDPAddr()
+	p1, p2 := VUDPAddr(), VUDPAddr()
 	c0 := vClock()
 	a.AddPermission(NewPermission(p1, log, t1))
 	perm1 := a.GetPermission(p1)
@@ -56,8 +56,8 @@ func VerifHarness_C07_permission_timers() {
 //
 //verif:props=C07,C08 replay=model bounds="all positive timeouts, all valid channel numbers, IPv4/IPv6 peers"
 func VerifHarness_C07_channel_timers() {
-	a, _, _ := vNewAlloc(nil)
-	log := &vLogger{}
+	a, _, _ := VNewAlloc(nil)
+	log := &VLogger{}
 	ct, pt := time.Duration(vI64()), time.Duration(vI64())
 	ct2, pt2 := time.Duration(vI64()), time.Duration(vI64())
 	vAssume(ct > 0)
@@ -66,7 +66,7 @@ func VerifHarness_C07_channel_timers() {
 	vAssume(pt2 > 0)
 	n := proto.ChannelNumber(vU16())
 	vAssume(vInRange(n))
-	p := vUDPAddr()
+	p := VUDPAddr()
 	c0 := vClock()
 	err := a.AddChannelBind(NewChannelBind(n, p, log), ct, pt)
 	vAssert(err == nil, "C07.first_bind_succeeds")
@@ -93,7 +93,7 @@ func VerifHarness_C07_channel_timers() {
 	vFire(cb.lifetimeTimer)
 	vAssert(a.GetChannelByNumber(n) == nil, "C07.expired_binding_gone_by_number")
 	vAssert(a.GetChannelByAddr(p) == nil, "C07.expired_binding_gone_by_peer")
-	q := vUDPAddr()
+	q := VUDPAddr()
 	n2 := proto.ChannelNumber(vU16())
 	vAssume(vInRange(n2))
 	if vBool() {
